@@ -12,6 +12,8 @@ package flags_test
 import (
 	"bytes"
 	"fmt"
+	"math/rand"
+	"os"
 	"sort"
 	"strings"
 	"testing"
@@ -125,6 +127,28 @@ func TestBoundedRoundTripGrammar(t *testing.T) {
 		lines = append(lines, b.String())
 	}
 	lines = append(lines, "-D", "-D -k x")
+	if os.Getenv("VERIF_TIER") == "thorough" {
+		// thorough tier: every pair of (field, operator, value) cases in one rule, sampled by VERIF_SEED
+		seed := 1
+		fmt.Sscanf(os.Getenv("VERIF_SEED"), "%d", &seed)
+		rng := rand.New(rand.NewSource(int64(seed)))
+		type fov struct{ f, o, v, list string }
+		var all []fov
+		for _, fc := range fields {
+			for _, op := range fc.ops {
+				for _, v := range fc.vals {
+					all = append(all, fov{fc.name, op, v, fc.list})
+				}
+			}
+		}
+		for i := 0; i < 20000; i++ {
+			a, b, c := all[rng.Intn(len(all))], all[rng.Intn(len(all))], all[rng.Intn(len(all))]
+			if a.list != b.list || a.list != c.list {
+				continue
+			}
+			lines = append(lines, fmt.Sprintf("-a always,%s -S %d -F %s%s%s -F %s%s%s -F %s%s%s -k t%d", a.list, rng.Intn(2048), a.f, a.o, a.v, b.f, b.o, b.v, c.f, c.o, c.v, i%7))
+		}
+	}
 	// watch-shaped syscall rules: every list x action, with and without a path, in several field orders
 	for _, list := range []string{"exit", "task", "user", "exclude"} {
 		for _, action := range []string{"always", "never"} {
@@ -183,6 +207,10 @@ func TestBoundedRoundTripGrammar(t *testing.T) {
 					kind = "arch-first"
 				}
 				fail("order/"+kind, "%q -> %q re-encodes to the same triples in another order", line, text)
+				continue
+			}
+			if strings.Count(line, "-F arch") >= 2 {
+				fail("bytes/duplicate-arch", "%q -> %q: a rule with two arch filters is listed with one", line, text)
 				continue
 			}
 			fail("bytes/"+classOf(line), "%q -> %q re-encodes differently (first difference at byte %d)", line, text, firstDiff(wf1, wf2))
